@@ -144,6 +144,7 @@ func runC04(r *core.Run) {
 		}
 	})
 	c04TypeSweeps(r)
+	c04ByteTypes(r)
 	c04StepBound(r)
 	c04DebugLogging(r)
 	r.Sample(map[string]any{"parser": "keys_and_cert.ReadKeysAndCert", "sweep": "signing code 0..65535 x crypto {0,4}; crypto code 0..65535 x signing {7,0}"})
@@ -323,6 +324,8 @@ func replayC04(r *core.Run, c core.Case) {
 		if ok && res.OK && res.Val != nil {
 			c04Methods(r, 0, p, in, res.Val)
 		}
+	case "bytetype":
+		c04ByteTypes(r)
 	default:
 		c04TypeSweeps(r)
 	}
@@ -494,4 +497,53 @@ func c04DebugLogging(r *core.Run) {
 	// on the log level most often branches on
 	enumerateInputs(r, enumOpts{BaseBound: o.BaseBound + 1, MutateBound: -1, Families: []string{"KeysAndCert"}}, visit)
 	r.Note("debug_logging_pass_parses", n)
+}
+
+// c04ByteTypes: exported named types that ARE byte strings (data.Integer, data.I2PString, key and tag types
+// declared as []byte ...) are decoders of their own contents: a plain conversion T(b) yields a value whose
+// methods must return normally for every b. Every such type found by the registry scan x every length 0..20 and
+// 31, 32, 33, 255, 256, 257, 300 x three fills x every exported method (argument menus).
+func c04ByteTypes(r *core.Run) {
+	var lens []int
+	for n := 0; n <= 20; n++ {
+		lens = append(lens, n)
+	}
+	lens = append(lens, 31, 32, 33, 63, 64, 65, 255, 256, 257, 300)
+	var n int64
+	for _, t := range registry.Types {
+		rt := reflect.TypeOf(t.Ptr)
+		if rt == nil || rt.Kind() != reflect.Ptr {
+			continue
+		}
+		et := rt.Elem()
+		if et.Kind() != reflect.Slice || et.Elem().Kind() != reflect.Uint8 {
+			continue
+		}
+		for _, l := range lens {
+			for fill := 0; fill < 3; fill++ {
+				b := make([]byte, l)
+				for i := range b {
+					switch fill {
+					case 1:
+						b[i] = 0xff
+					case 2:
+						b[i] = byte(i*37 + l)
+					}
+				}
+				v := reflect.ValueOf(b).Convert(et)
+				pv := reflect.New(et)
+				pv.Elem().Set(v)
+				called, _ := adapt.CallMethods(pv.Interface(), true, mutatorNames, func(o adapt.CallOutcome) {
+					if o.Panicked {
+						r.Violate("C04|method-panic|"+o.Type+"."+o.Method+"|"+o.Site, fmt.Sprintf("(%s).%s(%s) panics on the %d-byte value %s(%x...): %s", o.Type, o.Method, o.Args, l, t.Name, b[:min(len(b), 12)], o.Msg),
+							core.Case{Kind: "bytetype", Args: map[string]string{"type": t.Name, "len": fmt.Sprint(l), "fill": fmt.Sprint(fill)}})
+					}
+				})
+				n += int64(called)
+				r.Evaluations.Add(int64(called))
+			}
+		}
+		r.Distinct([]byte("bytetype"), []byte(t.Name))
+	}
+	r.Note("byte_string_type_method_calls", n)
 }
